@@ -5,6 +5,7 @@ import (
 	"fmt"
 	"math/rand"
 	"runtime"
+	"sort"
 	"strings"
 	"sync"
 	"time"
@@ -287,6 +288,31 @@ func checkC15(rc *Run) error {
 			mu.Unlock()
 			if o.St != "ok" || len(o.Res) != 1 || !o.Res[0].Equal(k.Sorted) {
 				report("sort_keys", "canonical", fmt.Sprintf("sort_keys(..) of %s: specification %s, yq %s %s", k.D.JSON(), k.Sorted.JSON(), o.St, avListJSON(o.Res)), M{"expr": "sort_keys(..)", "input_json": k.D.JSON()})
+			}
+		})
+	}
+	// sort_keys changes key order ONLY: maps of YAML whose keys are not all strings - keys with the same text but another
+	// type ("1" and 1, "true" and true) are different keys and both keep their value
+	for _, ydoc := range []string{`{"1": a, 1: b, 0: c}`, `{b: x, "true": s, true: t, a: y}`, `{2: [z, {"3": p, 3: q, 1: r}], "2": w}`, `{~: n, "~": s, "": e}`} {
+		yd := ydoc
+		jobsList = append(jobsList, func() {
+			before, s1, _ := evalYAML(`[.. | select(kind == "map") | to_entries | .[] | [(.key | tag), .key, (.value | tag), (.value | to_json(0))] | join("/")] | sort | .[]`, yd+"\n")
+			after, s2, _ := evalYAML(`sort_keys(..) | [.. | select(kind == "map") | to_entries | .[] | [(.key | tag), .key, (.value | tag), (.value | to_json(0))] | join("/")] | sort | .[]`, yd+"\n")
+			keysAfter, s3, _ := evalYAML(`sort_keys(..) | [.. | select(kind == "map") | [keys | .[] | to_string]] | .[] | to_json(0)`, yd+"\n")
+			mu.Lock()
+			compared++
+			mu.Unlock()
+			if s1 != "ok" || s2 != "ok" || s3 != "ok" {
+				return // the probe expression itself is not what is judged
+			}
+			if strings.Join(before, "\n") != strings.Join(after, "\n") {
+				report("sort_keys-changes-entries", "yamlkeys", fmt.Sprintf("sort_keys(..) of %s: the entries (key type, key, value) were %q and are %q", yd, before, after), M{"expr": "sort_keys(..)", "input_yaml": yd})
+			}
+			for _, ks := range keysAfter {
+				var arr []string
+				if json.Unmarshal([]byte(ks), &arr) == nil && !sort.StringsAreSorted(arr) {
+					report("sort_keys-not-sorted", "yamlkeys", fmt.Sprintf("sort_keys(..) of %s leaves the keys %v", yd, arr), M{"expr": "sort_keys(..)", "input_yaml": yd})
+				}
 			}
 		})
 	}
